@@ -62,15 +62,46 @@ def check_c17(c):
         ])
 
 
-def check_c01(c):
-    def nontrivial(cmd, args, impl):
-        return impl.startswith("ok:") and len(impl) > 400
-    generic(
-        c, "c01", ["Properties/C17.v"], [],
-        what_tie="Writer/Reader vs Model/Writer.v + Model/Reader.v (byte-exact tables, scans, seeks, RefsFor)",
-        rule="generated tables (see input_distribution); non-trivial = written successfully and > 200 bytes",
-        nontrivial=nontrivial, assumptions=[])
+TABLE_RULE = ("generated tables: 0..120 (sometimes 400) refs over names rich in shared prefixes (1..60 bytes, some 400+, arbitrary bytes incl. NUL), all four value kinds and deletions, "
+              "0..40 log records (several per ref, deletions, absent hashes, random 64-bit times / indices, messages with and without newline / blanks), both hash sizes, "
+              "padded and unaligned, with and without object index, exact and normalised messages, block sizes concentrated at 64..300 above the largest record (5..60 blocks, 1..3 index levels) plus 4096 / default, "
+              "restart interval 0..20, min update index 0 / small / 2^40; a few block sizes too small (the writer must refuse). Per table: write (byte-exact), open, full scans, "
+              "seeks at keys and their neighbours, RefsFor for occurring / prefix-sharing / absent object ids; the written file is also judged by the spec decoder. ")
 
+
+def _table_check(c, hprop, prop_files, lemma_files, focus):
+    generic(
+        c, hprop, prop_files, lemma_files,
+        what_tie="Writer / Reader (AddRef, AddLog, Close, NewReader, SeekRef, SeekLog, RefsFor, iteration) vs Model/Writer.v + Model/Reader.v: table bytes byte-for-byte, every query result",
+        rule=TABLE_RULE + focus + " non-trivial = written successfully and larger than 200 bytes; distinct by (config, records, queries)",
+        nontrivial=lambda cmd, args, impl: impl.startswith("ok:") and len(impl) > 400,
+        assumptions=["zlib is an oracle: the model calls Go's compress/zlib through a pipe (hypothesis of the theorems: inflate (deflate x ++ rest) = x, consuming exactly the stream)",
+                     "theorems proved so far stop at the block level (and the unit codecs); the table level (sections, padding, index, footer) is covered by the byte-exact tie and stated in DESIGN.md as the open part"])
+
+
+def check_c01(c):
+    _table_check(c, "c01", ["Properties/C01.v"], ["Proofs/CodecProofs.v", "Proofs/BlockProofs.v", "Proofs/BlockInitEq.v"],
+                 "Focus C01: scans of every table.")
+
+
+def check_c02(c):
+    _table_check(c, "c02", ["Properties/C02.v"], ["Proofs/CodecProofs.v", "Proofs/BlockProofs.v"],
+                 "Focus C02: small blocks (multi-level index, multi-block top level), up to 6 (thorough 16) keys per table x {key, key+NUL, key minus last byte, last byte -1/+1}, empty key, beyond-last; SeekLog at index 0 / each / +-1 / 2^64-1.")
+
+
+def check_c11(c):
+    _table_check(c, "c11", ["Properties/C11.v"], ["Proofs/CompactProofs.v", "Proofs/MergeProofs.v"],
+                 "Focus C11: few objects shared by many refs (object index present / absent / truncated position lists / multi-block), prefix-sharing object ids, min update index > 0; stacks are covered by the C03 tie (RefsFor on Merged).")
+
+
+def check_c14(c):
+    generic(
+        c, "c14", ["Properties/C14.v"], ["Proofs/SpecProofs.v"],
+        what_tie="every file the Go writer emits is judged by the extracted spec decoder (Model/SpecDecoder.v) against its source records; tie: model writer output byte-identical",
+        rule=TABLE_RULE + "Each emitted file = one program; C07/C13 histories add every table written by Add and by compaction.",
+        nontrivial=lambda cmd, args, impl: impl.startswith("ok:") and len(impl) > 400,
+        assumptions=["the judge shares the byte / varint / key / record-field decoders with the reader model (codec layer), nothing of the block or table readers",
+                     "log update indices are not range-checked by the writer; the judge checks the range for refs"])
 
 def check_c03(c):
     generic(
@@ -120,3 +151,15 @@ def check_c12(c):
               "after each: accepted <=> the result is conflict-free (extracted conflict_free_b), live names conflict-free. non-trivial = at least one rejection"),
         nontrivial=lambda cmd, args, impl: "rejected" in impl,
         assumptions=["multi-table Additions are validated table by table against the view committed before the Addition (see known finding S5 / C12_addition_pinned_refuted); the tie covers single-table transactions through Stack.Add"])
+
+
+def check_c18(c):
+    generic(
+        c, "c18", ["Properties/C18.v"], ["Proofs/ReaderSafety.v"],
+        what_tie="NewReader / SeekRef / SeekLog / RefsFor + iteration on arbitrary bytes vs Model/Reader.v (outcome class and records)",
+        rule=("mutations of valid generated tables of every layout: bit flips (with and without repaired footer CRC), truncations (also keeping the footer), footer offset edits, "
+              "block length edits, splices, varint continuation bits, header edits with footer copy, restart-count edits; plus a corpus of past findings (index cycle). "
+              "Each byte string: open + up to 8 queries, under recover() and a 3 s timeout. non-trivial = the bytes open (a query was actually run)"),
+        nontrivial=lambda cmd, args, impl: impl.startswith("ok|"),
+        assumptions=["theorems: no Panic / no Fuel for ALL byte strings shorter than 2^31 and ANY inflate function; allocation is bounded by the input and by what inflate returns (zlib's output size is outside the model)",
+                     "Go run-time faults other than the modelled ones (stack overflow, OOM inside zlib) are outside the model; the harness still reports them (panic / hang / process death)"])
